@@ -668,6 +668,14 @@ sys.path.insert(0, site)
 from jaqalpaq.parser import parse_jaqal_string
 from jaqalpaq.error import JaqalError
 def attempt(name, relative):
+    if name == "vfgood":
+        # an ordinary program with the caller's own gate definitions: it works whatever was imported (or not found) before
+        from jaqalpaq.core import GateDefinition, Parameter, ParamType
+        try:
+            c = parse_jaqal_string("register q[1]\nGG q[0]\n", inject_pulses={"GG": GateDefinition("GG", [Parameter("q", ParamType.QUBIT)])}, autoload_pulses=False)
+            return ["ok", sorted(c.native_gates)]
+        except Exception as ex:
+            return ["other:" + type(ex).__name__, str(ex)[:100]]
     text = "from %s%s usepulses *\nregister q[1]\n" % ("." if relative else "", name)
     try:
         c = parse_jaqal_string(text, autoload_pulses=True, import_path=project)
@@ -705,6 +713,9 @@ def import_layout_probe(ctx):
 
     try:
         kinds = [(n, r) for n in ("vfpk", "vfmd", "vfat", "vfbr", "vfbp") for r in (True, False)]
+        # a relative import of a name that an already imported package carries (and no local module does), and an ordinary
+        # program with the caller's own gates
+        kinds += [("jaqalpaq", True), ("json", True), ("vfgood", False)]
         fresh = {}
         for k in kinds:
             out = run([k])
@@ -716,15 +727,19 @@ def import_layout_probe(ctx):
         want = {("vfpk", True): ["ok", ["Localgate"]], ("vfpk", False): ["ok", ["Sitegate"]], ("vfmd", True): ["ok", ["Localgate"]],
                 ("vfmd", False): ["ok", ["Sitegate"]], ("vfat", True): ["ok", ["Localgate"]], ("vfat", False): ["ok", ["Sitegate"]],
                 ("vfbr", True): ["ImportError", ""], ("vfbr", False): ["ok", ["Sitegate"]],
-                ("vfbp", True): ["ImportError", ""], ("vfbp", False): ["ok", ["Sitegate"]]}
+                ("vfbp", True): ["ImportError", ""], ("vfbp", False): ["ok", ["Sitegate"]],
+                ("jaqalpaq", True): ["ImportError", ""], ("json", True): ["ImportError", ""], ("vfgood", False): ["ok", ["GG"]]}
         for k, v in fresh.items():
             if v != want[k]:
                 rec.violation(sig("C16", "pulse-import:%s:%s-import-of-%s" % (
                     "wrong-exception:" + v[0][6:] if v[0].startswith("other:") else "wrong-module-or-outcome", "relative" if k[1] else "absolute",
                     {"vfpk": "package", "vfmd": "single-file-module", "vfat": "package-importing-its-gates", "vfbr": "module-that-fails-to-load",
-                     "vfbp": "package-whose-gates-fail-to-load"}[k[0]])), {"got": v, "expected": want[k]}, {"kind": "import", "steps": [list(k)]})
+                     "vfbp": "package-whose-gates-fail-to-load", "jaqalpaq": "name-of-an-imported-package", "json": "name-of-an-imported-package",
+                     "vfgood": "no-import-at-all"}[k[0]])), {"got": v, "expected": want[k]}, {"kind": "import", "steps": [list(k)]})
         names = ("vfpk", "vfmd", "vfat", "vfbr", "vfbp")
         fixed = [[(n, True), (n, False), (n, True), (n, False)] for n in names] + [[(n, False), (n, True), (n, False), (n, True)] for n in names]
+        fixed += [[("vfgood", False), ("jaqalpaq", True), ("vfgood", False), ("vfmd", True), ("vfgood", False)],
+                  [("vfmd", False), ("json", True), ("vfgood", False), ("vfmd", False)]]
         nrand = 6 if ctx.quick else 40
         for h in range(len(fixed) + nrand):
             # every name relative-then-absolute and absolute-then-relative, then random interleavings of all of them
